@@ -13,7 +13,7 @@ git apply --3way $CH/demo.diff >> $LOG 2>&1 || { echo "RESULT demo-does-not-appl
 DEMO=$(grep -h '^+++ b/' $CH/demo.diff | sed 's|+++ b/||' | head -1)
 CRATE=$(echo $DEMO | cut -d/ -f2)
 TESTNAME=$(basename $DEMO .rs)
-if echo $DEMO | grep -q '/tests/'; then DEMOCMD="cargo test -p $CRATE --offline --test $TESTNAME"; else DEMOCMD="cargo test -p $CRATE --offline --lib"; fi
+if echo $DEMO | grep -qE '^crates/[^/]+/tests/'; then DEMOCMD="cargo test -p $CRATE --offline --test $TESTNAME"; else DEMOCMD="cargo test -p $CRATE --offline --lib"; fi
 echo "demo cmd: $DEMOCMD" >> $LOG
 $DEMOCMD >> $LOG 2>&1; A=$?
 echo "demo on clean HEAD rc=$A" >> $LOG
